@@ -84,14 +84,14 @@ func runC15(c *Ctx) {
 			key := "route-true|" + fnKey(isAllowedRoute)
 			pa, ok2 := Has(p, p.End(), Need{M: walk.Static(isAllowedPath), Idx: -1, Out: IsTrue})
 			m, ok1 := Has(p, p.End(), Need{M: walk.Static(isAllowedMethod), Idx: -1, Out: IsTrue, Where: func(p *walk.Path, k walk.Call) bool {
-				return !ok2 || p.Same(p.Arg(k, 1), p.Arg(pa, 1))
+				return !ok2 || sameValueOrSlot(p, p.Arg(k, 1), p.Arg(pa, 1))
 			}})
 			if !ok1 || !ok2 {
 				c.bad(rule, key, p.Exit, sprintf("isAllowedRoute returns true without both predicates (method:%v path:%v)", ok1, ok2), p, p.End())
 				return
 			}
 			reqP := isAllowedRoute.Params[1]
-			sameRoute := p.Same(p.Arg(m, 1), p.Arg(pa, 1)) && p.Resolve(p.Arg(m, 0)).V == reqP && p.Resolve(p.Arg(pa, 0)).V == reqP
+			sameRoute := sameValueOrSlot(p, p.Arg(m, 1), p.Arg(pa, 1)) && p.Resolve(p.Arg(m, 0)).V == reqP && p.Resolve(p.Arg(pa, 0)).V == reqP
 			// the route is an element of p.allowedRoutes
 			elem := false
 			if u, ok := p.Resolve(p.Arg(m, 1)).V.(*ssa.UnOp); ok {
